@@ -1,6 +1,8 @@
 """C15 -- the chain graph has one node and one labelled edge per decay line."""
 from __future__ import annotations
 
+import json
+
 from hypothesis import strategies as st
 
 from .. import chains as C
@@ -104,6 +106,10 @@ def count_lines(chain):
     return n
 
 
+ATTRS = ({}, {}, {}, {"name": "G1"}, {"name": "G1"}, {"name": "my graph"}, {"graph_attr": {"rankdir": "TB"}}, {"node_attr": {"fontsize": "9"}},
+         {"edge_attr": {"fontsize": "7"}, "name": "DecayChainGraph"}, {"comment": "x"})
+
+
 @st.composite
 def session_case(draw):
     k = draw(st.integers(2, 4))
@@ -114,7 +120,9 @@ def session_case(draw):
         else:
             f = draw(G.table_set_file(2, 6, max_lines=5, max_daughters=4))
             items.append({"kind": "file", "ast": f, "pick": draw(st.integers(0, 9))})
-    return {"items": items, "share": draw(st.sampled_from((False, False, True)))}
+    # user attributes of the underlying Digraph (name, graph/node/edge attributes): presentation only
+    attrs = [draw(st.sampled_from(ATTRS)) for _ in items]
+    return {"items": items, "share": draw(st.sampled_from((False, False, True))), "attrs": attrs}
 
 
 def check_case(case, rec):
@@ -147,9 +155,10 @@ def check_case(case, rec):
             return node
         chains = [share(ch, {}) for ch in chains]
     sources = []
-    for ch in chains:
+    for i, ch in enumerate(chains):
+        at = json.loads(json.dumps((case.get("attrs") or [{}])[i % len(case.get("attrs") or [{}])]))
         with impl(ID, "DecayChainViewer"):
-            sources.append(DecayChainViewer(ch).to_string())
+            sources.append(DecayChainViewer(ch, **at).to_string())
     graphs = D.read_graphs(sources)
     all_ids = []
     nt = False
